@@ -9,7 +9,7 @@ echo "-- suite with change"
 cargo nextest run --workspace --no-fail-fast --offline -E "not binary(=$demo)" 2>&1 | grep -E "Summary|FAIL " | sort -u | head -5
 echo "-- demo with change (expect failure)"
 cargo test --offline --test $demo 2>&1 | grep -E "^test result|^test .*FAILED|error(\[|:)" | head -5
-git stash push -q -- src
+git diff -- src > /tmp/confirm_$ID.diff; git apply -R /tmp/confirm_$ID.diff
 echo "-- demo without change (expect pass)"
 cargo test --offline --test $demo 2>&1 | grep -E "^test result|^test .*FAILED|error(\[|:)" | head -5
-git stash pop -q
+git apply /tmp/confirm_$ID.diff; rm -f /tmp/confirm_$ID.diff
